@@ -102,7 +102,7 @@ def validate(fam, path, res):
     if not t.ok:
         vlib.log(t.out[-3000:])
         raise vlib.ToolError(f"Trace_Stepper rejected the trace of family {fam}: {t.error or t.invariant}")
-    calls, rets, pairs_by_b = {}, {}, {}
+    calls, rets, pairs_by_b, facts = {}, {}, {}, {}
     nl = 0
     with open(path) as f:
         for line in f:
@@ -122,6 +122,8 @@ def validate(fam, path, res):
                     rets[o["id"]] = o
                 elif o["e"] == "pair":
                     pairs_by_b.setdefault(o["b"], []).append(o)
+                elif o["e"] == "fact":
+                    facts[o["id"]] = o
     res.lines += nl
     res.states += t.distinct
     res.transitions += t.generated
@@ -137,7 +139,12 @@ def validate(fam, path, res):
             if clause.startswith("pair_"):
                 cand = [q for q in pairs_by_b.get(cid, []) if "pair_" + q["mode"] == clause and q["prop"] == prop]
                 pr = cand[0] if cand else None
-            res.viol.append((prop, clause, fam, calls.get(cid), rets.get(cid), pr, calls))
+            call = calls.get(cid)
+            if call is None and cid in facts:
+                fo = facts[cid]
+                call = {"method": fo["method"], "api": fo["api"], "problem": fo["problem"], "tags": fo["tags"], "fact": True,
+                        "case_json": json.dumps({"fact": fo["note"]})}
+            res.viol.append((prop, clause, fam, call, rets.get(cid), pr, calls))
             nv += 1
     for l in t.printed:
         if l.startswith('<<"DRIFT"'):
@@ -277,6 +284,9 @@ def to_violations(res, prop):
             ca = calls.get(pair["a"])
             cases = [json.loads(ca["case_json"]) if ca else None, json.loads(call["case_json"])]
             scen.update({"mode": pair["mode"], "prop": pair["prop"]})
+        elif call is not None and call.get("fact"):
+            cases = []                       # a family-level fact: the replay re-records the family
+            scen["fact"] = json.loads(call["case_json"])["fact"]
         elif call is not None:
             cases = [json.loads(call["case_json"])]
         scen["cases"] = cases
@@ -316,7 +326,10 @@ def replay(prop, rp, tier, seed, work):
     json.dump(cases, open(cp, "w"))
     p = os.path.join(work, "replay.ndjson")
     extra = [sc["mode"], sc["prop"]] if "mode" in sc and len(cases) == 2 else []
-    record_family(sc.get("family", "core"), tier, seed, p, only=cp, extra=extra)
+    if not cases and sc.get("fact"):
+        record_family(sc.get("family", "core").split("#")[0], tier, seed, p)       # family-level fact: re-record the family
+    else:
+        record_family(sc.get("family", "core"), tier, seed, p, only=cp, extra=extra)
     res = SolverRun()
     validate("replay", p, res)
     viol = to_violations(res, prop)
